@@ -574,11 +574,13 @@ pub struct Asm {
     pub seed: u64,
 }
 
-const ASM_LINES: [&str; 22] = [
+const ASM_LINES: [&str; 26] = [
     "  mov   eax,  1", "@L1:   add eax,ebx", "    push ebx;  pop  ebx", "  mov al, 'a'", "  db \"str\\\"ing\" , 0",
     "  mov eax,{$ifdef CPUX64}1   {$else}2{$endif}", "  jmp  @@end_label", "  mov eax, [ebx+4*ecx]  // comment", "  {comment}   nop",
     "\tRET", "  mov eax, 0FFh", "  and eax, 1010b", "  call   System.@HandleFinally", "  MOV  ECX , [EAX].TFoo.Bar", "   lea  rax,[rip+Value]",
     "  fld   qword ptr [esp]", "  db 0,1 , 2,3", "@@end_label:", "  mov &end1, 1", "  mov ax, 17o ; inc   ax", "    xor\teax,\teax", "  test al, $80",
+    // conditional directives inside an instruction, followed by more of the instruction (kept verbatim; at the very end of the line: F16)
+    "  mov   eax,{$ifdef CPUX64}1   {$else}2{$endif}  ;nop", "  mov {$ifdef X}eax{$else}ebx{$endif},  1", "  mov eax, {$ifdef X} 1 {$endif} ; x", "  add   ecx,{$ifopt R+}4{$else}8{$endif},  eax",
 ];
 
 impl Suite for Asm {
